@@ -240,7 +240,7 @@ def b_all(I, x):
 
 def b_any(I, x):
     if isinstance(x, SymSeq):
-        raise Unsupported("any() over a symbolic-length sequence")
+        return I.reg.sym_any(I, x)
     return ops.b_or(*[I.truth(v) for v in I.iterate(x)])
 
 
